@@ -52,6 +52,19 @@ def cases(tier, seed):
         yield ('CL', op, 300)
     for t in list(cm.arith_trees()) + list(cm.onearg_aggregate_trees()):
         yield ('C', t)
+    # feature names of every class (digits only, keywords, quotes, blanks ...) as operands
+    from . import rt
+    reps = [('REQUIRES', 'x', 'y'), ('OR', ('NOT', 'y', None), 'x'), ('EXCLUDES', 'y', 'x'), ('AND', 'x', ('OR', 'y', 'z')),
+            ('IMPLIES', ('AND', 'x', 'y'), ('NOT', 'x', None)), 'x', ('NOT', 'x', None), ('EQUIVALENCE', 'x', 'y'), ('XOR', 'y', 'x')]
+    for _cls, members in rt.NAME_CLASSES.items():
+        for nm in members:
+            if nm.startswith("'"):
+                continue        # a leading apostrophe marks a string literal in a constraint expression
+            for t in reps:
+                yield ('C', cm.map_names(t, {'x': nm}))
+    # expression graphs with shared sub-expression objects
+    for t in cm.dag_trees():
+        yield ('CD', t)
 
 
 def plan(tier):
@@ -78,7 +91,7 @@ def _chain_tree(op, n):
 def describe(case):
     if case[0] == 'CL':
         return 'CL:%s x %d' % (case[1], case[2])
-    return 'C:' + sh.tree_str(case[1])
+    return case[0] + ':' + sh.tree_str(case[1])
 
 
 def reduce(case):
@@ -87,20 +100,23 @@ def reduce(case):
             yield ('CL', case[1], case[2] // 2)
         return
     seen = set()
-    keepcase = 'X' in sh.tree_names(case[1])
-    for t in sh.tree_reductions(case[1], ('x', 'X', 'y') if keepcase else ('x', 'y', 'z')):
+    present = sh.tree_names(case[1])
+    special = [n for n in present if n not in ('x', 'y', 'z', 'X')]
+    keepcase = 'X' in present or bool(special)
+    pool = tuple(dict.fromkeys(special + ['x', 'y'])) if special else (('x', 'X', 'y') if keepcase else ('x', 'y', 'z'))
+    for t in sh.tree_reductions(case[1], pool):
         t = t if keepcase else sh.tree_normalize_vars(t)
         if t not in seen:
             seen.add(t)
-            yield ('C', t)
+            yield (case[0], t)
 
 
 def normalize(case):
     if case[0] == 'CL':
         return case
-    if 'X' in sh.tree_names(case[1]):
+    if any(n not in ('x', 'y', 'z') for n in sh.tree_names(case[1])):
         return case
-    return ('C', sh.tree_normalize_vars(case[1]))
+    return (case[0], sh.tree_normalize_vars(case[1]))
 
 
 def nontrivial(case):
@@ -136,7 +152,11 @@ PREDS = ('is_logical_constraint', 'is_arithmetic_constraint', 'is_aggregation_co
 def check(case):
     tree = _chain_tree(case[1], case[2]) if case[0] == 'CL' else case[1]
     out = []
-    ctc = bd.constraint('c', tree)
+    bd.SHARE['on'] = case[0] == 'CD'
+    try:
+        ctc = bd.constraint('c', tree)
+    finally:
+        bd.SHARE['on'] = False
     engine.tick()
     if bd.obs_tree(ctc.ast.root) != tree:
         return [Fail('build-conformance', sh.tree_str(tree))]
@@ -213,6 +233,25 @@ def check(case):
                     out.append(Fail('split-malformed', str(exc)))
         except Exception as exc:  # noqa: BLE001
             out.append(Fail('split-raises', '%s: %s' % (type(exc).__name__, exc)))
+        if not out:
+            # what the caller does with the returned parts must not reach later answers
+            try:
+                parts = split_constraint(ctc)
+                before = [bd.obs_tree(p.ast.root) for p in parts]
+                if isinstance(parts, list):
+                    parts.clear()
+                again = [bd.obs_tree(p.ast.root) for p in split_constraint(ctc)]
+                vals2 = {p: getattr(ctc, p)() for p in PREDS}
+                feats_obj = ctc.get_features()
+                if isinstance(feats_obj, list):
+                    feats_obj.clear()
+                engine.tick(3)
+                if again != before or vals2 != vals or sorted(ctc.get_features()) != names:
+                    out.append(Fail('answers-depend-on-what-the-caller-did-with-an-earlier-result',
+                                    {'split before': [sh.tree_str(t) for t in before], 'split after': [sh.tree_str(t) for t in again],
+                                     'changed predicates': sorted(p for p in PREDS if vals2[p] != vals[p])}))
+            except Exception as exc:  # noqa: BLE001
+                out.append(Fail('second-query-raises', '%s: %s' % (type(exc).__name__, exc)))
         try:
             feats = ctc.get_features()
             engine.tick()
